@@ -151,6 +151,9 @@ _AR = (" Call::analyze_request itself (runs once; Host from the URI when the cal
 CLAIMED["C02"]["text"] += _AR % "c02_code_analyze_request"
 CLAIMED["C14"]["text"] += _AR % "c14_code_analyze_request"
 CLAIMED["C14"]["technique"] += " + the code's own functions translated to Gallina on every run and proved equivalent to the model"
+CLAIMED["C17"]["text"] += (" What a FAILED analysis leaves behind is translated as well (Call::analyze_request in error-state mode: the values of its mutable fields where it returns an error): nothing changed, "
+                           "the 'analysed' flag still unset, so a retry analyses and fails again (c17_code_failed_analysis_changes_nothing).")
+CLAIMED["C11"]["text"] += (" What an error of try_read_100 leaves behind is translated as well (error-state mode) and is the model's: the await flag cleared, nothing else (c11_code_try_read_100_after_error).")
 _AMH = CODE2 % ("client/amended.rs AmendedRequest::headers and the accessors built on it (headers_get_all, headers_get, headers_len); the added ArrayVec, the unset list and the original HeaderMap are lists in iteration order",
                "%s: plain equalities with the model's am_headers / get_all: added headers first in the order added, then the original ones that are not unset; the unset list filters inherited headers only")
 CLAIMED["C16"]["text"] += _AMH % "c16_code_headers, c16_code_headers_len"
